@@ -28,6 +28,9 @@ setup(const struct cfg *c, struct rt_desc *d)
     d->area[0].readable = d->area[0].writeable = 1;
     d->area[0].custom = c->custom;
     d->area[0].has_write = 1;
+    /* one configuration in four keeps what its storage holds at start-up (defaults are not loaded there; typed
+     * access works all the same) */
+    d->area[0].skipdef = ((c->type + 2 * c->be + c->ck + c->custom) % 4) == 1;
     d->nregs = 3;
     d->reg[0].type = REG_TYPE_UINT16;
     d->reg[0].addr = 20;
@@ -360,7 +363,9 @@ u_counts(uint64_t idx, void *arg)
 {
     (void)arg;
     static const int counts[] = { 0, 1, 2, 7 };
-    const int n = counts[idx % 4], be = (int)(idx / 4) % 2, custom = (int)(idx / 8) % 2, nareas = 1 + (int)(idx / 16) % 2;
+    const int n = counts[idx % 4], be = (int)(idx / 4) % 2, nareas = 1 + (int)(idx / 16) % 2;
+    /* units 64..95: callback-backed areas without read callback (devices that can only be written) */
+    const int noread = idx >= 64, custom = noread || (int)(idx / 8) % 2;
     vh_arena_reset();
     struct rt_desc d;
     memset(&d, 0, sizeof d);
@@ -372,6 +377,7 @@ u_counts(uint64_t idx, void *arg)
         d.area[i].readable = d.area[i].writeable = 1;
         d.area[i].custom = custom;
         d.area[i].has_write = 1;
+        d.area[i].noread = noread;
     }
     d.nregs = n;
     for (int i = 0; i < n; i++) {
@@ -423,7 +429,13 @@ u_counts(uint64_t idx, void *arg)
         RegisterValue v = { .type = REG_TYPE_UINT16, .value.u16 = (uint16_t)(0xa000 + i) }, g;
         RegisterAccess a = register_set(&inst.t, (RegisterHandle)i, v);
         RegisterAccess b = register_get(&inst.t, (RegisterHandle)i, &g);
-        if (a.code != REG_ACCESS_SUCCESS || b.code != REG_ACCESS_SUCCESS || g.type != REG_TYPE_UINT16 || g.value.u16 != v.value.u16)
+        if (noread) {
+            /* the set goes to the device (the storage comparison below looks there), a get has nothing to read: it
+             * reports an error - and does not call a callback that is not there */
+            if (a.code != REG_ACCESS_SUCCESS || b.code == REG_ACCESS_SUCCESS)
+                vh_fail("write-only-area", key, "register %d of %d in an area without read callback: set code=%d get code=%d", i, n, a.code, b.code);
+            VH_COUNT("typed access to a register in a write-only device area");
+        } else if (a.code != REG_ACCESS_SUCCESS || b.code != REG_ACCESS_SUCCESS || g.type != REG_TYPE_UINT16 || g.value.u16 != v.value.u16)
             vh_fail("round-trip", key, "register %d of %d: set code=%d get code=%d value=%04x", i, n, a.code, b.code, g.value.u16);
         rt_encode(REG_TYPE_UINT16, be, v.value.u16, rt_model_word(&inst, (uint32_t)i));
         rt_compare_storage(&inst, "storage", key, "after set");
@@ -437,8 +449,9 @@ harness_run(void)
 {
     for (uint64_t i = 0; i < 32 * 13; i++)
         vh_unit("cfg", i, u_cfg, NULL);
-    for (uint64_t i = 0; i < 64; i++)
+    for (uint64_t i = 0; i < 96; i++)
         vh_unit("counts", i, u_counts, NULL);
+    vh_require("typed access to a register in a write-only device area");
     vh_require("bad handle probed on a table with no registers");
     vh_require("set refused by the device behind the callback");
     vh_require("bad handle probed on a table with one register");
